@@ -1298,3 +1298,177 @@ class Translator2N(Translator2M):
                     raise Untranslatable("return None")
                 return ctx.exit(self._fmt(self.r.end, scope), scope, ind)
         return Translator2M._block1(self, stmts, scope, ind, ctx)
+
+
+# =====================================================================================================================
+# Translator2TH — APPENDED by the C09 builder (second robustness round; nothing above is changed).  Translator2TN plus
+# the INLINING of small helpers of the same package, so that code moved into a helper translates to the term it had
+# before the move (rules always win: a call the vocabulary knows is never inlined):
+#   * expression helper   `h(a, b)` where `def h(p, q): return E`        ->  E[p := a, q := b]   (arguments that are not
+#     plain names / attribute chains / constants must be used at most once in E, so nothing is evaluated twice);
+#   * generator helper    `for T in g(a, b): BODY` where `def g(p, q): for t in IT: S…; yield E`
+#                                                                         ->  p' = a; q' = b; for t' in IT': S'…; T = E'; BODY
+#     (the helper's locals are renamed apart; one loop, one `yield`, last statement of its body);
+#   * slice objects       `v = slice(A, B)` … `x[v]`                      ->  `x[v_lo:v_hi]` with `v_lo = A; v_hi = B`.
+# Anything else about helpers (recursion, several returns, defaults, keyword / starred arguments) stays untranslatable.
+# =====================================================================================================================
+
+class Translator2TH(Translator2TN):
+    def __init__(self, rules):
+        Translator2TN.__init__(self, rules)
+        self._g = {}
+        self._pkg = None
+        self._slices = {}
+        self._hn = 0
+
+    def function(self, fn, arg_names, ind=2, allow_unused=()):
+        f = getattr(fn, "__func__", fn)
+        f = getattr(f, "fget", f) or f
+        self._g = getattr(f, "__globals__", {}) or {}
+        self._pkg = (getattr(f, "__module__", "") or "").split(".")[0]
+        self._slices = {}
+        return Translator2TN.function(self, fn, arg_names, ind=ind, allow_unused=allow_unused)
+
+    # ------------------------------------------------------------------------------------------ helpers
+    def _rule_matches(self, node):
+        return any(match(pat, node, {}) for pat, _t, _f in self.r.expr)
+
+    def _helper_def(self, call, scope):
+        """the FunctionDef of a same-package module-level helper called with plain positional arguments, else None"""
+        import types
+        if not (isinstance(call, ast.Call) and isinstance(call.func, ast.Name) and not call.keywords):
+            return None
+        if call.func.id in scope or any(isinstance(a, ast.Starred) for a in call.args):
+            return None
+        obj = self._g.get(call.func.id)
+        if not isinstance(obj, types.FunctionType) or (obj.__module__ or "").split(".")[0] != self._pkg or not self._pkg:
+            return None
+        try:
+            node, _src = source_ast(obj)
+        except Exception:      # noqa: BLE001 - no source: not inlinable
+            return None
+        a = node.args
+        if a.vararg or a.kwarg or a.kwonlyargs or a.defaults or a.posonlyargs or node.decorator_list:
+            return None
+        if len(a.args) != len(call.args):
+            return None
+        return node
+
+    @staticmethod
+    def _body(node):
+        b = list(node.body)
+        if b and isinstance(b[0], ast.Expr) and isinstance(b[0].value, ast.Constant) and isinstance(b[0].value.value, str):
+            b = b[1:]
+        return b
+
+    @staticmethod
+    def _simple(e):
+        while isinstance(e, ast.Attribute):
+            e = e.value
+        return isinstance(e, (ast.Name, ast.Constant))
+
+    def _inline_expr(self, call, scope):
+        node = self._helper_def(call, scope)
+        if node is None:
+            return None
+        body = self._body(node)
+        if len(body) != 1 or not isinstance(body[0], ast.Return) or body[0].value is None:
+            return None
+        import copy
+        params = [x.arg for x in node.args.args]
+        uses = {p: 0 for p in params}
+        for n in ast.walk(body[0].value):
+            if isinstance(n, ast.Name) and n.id in uses:
+                uses[n.id] += 1
+            if isinstance(n, (ast.Lambda, ast.ListComp, ast.GeneratorExp, ast.SetComp, ast.DictComp, ast.NamedExpr)):
+                return None        # binders could capture an argument
+        env = dict(zip(params, call.args))
+        if any(uses[p] > 1 and not self._simple(env[p]) for p in params):
+            return None
+
+        class Sub(ast.NodeTransformer):
+            def visit_Name(self, n):
+                return copy.deepcopy(env[n.id]) if n.id in env else n
+        return Sub().visit(copy.deepcopy(body[0].value))
+
+    def _inline_generator(self, st, scope):
+        """`for T in g(args): BODY` with g a one-loop, one-yield generator helper -> the statements replacing it"""
+        node = self._helper_def(st.iter, scope)
+        if node is None or st.orelse:
+            return None
+        body = self._body(node)
+        if len(body) != 1 or not isinstance(body[0], ast.For) or body[0].orelse:
+            return None
+        loop = body[0]
+        if not loop.body or not (isinstance(loop.body[-1], ast.Expr) and isinstance(loop.body[-1].value, ast.Yield)
+                                 and loop.body[-1].value.value is not None):
+            return None
+        n_yields = sum(isinstance(n, (ast.Yield, ast.YieldFrom)) for n in ast.walk(node))
+        if n_yields != 1 or any(isinstance(n, (ast.Return, ast.Break, ast.Continue, ast.Lambda, ast.ListComp, ast.GeneratorExp))
+                                for n in ast.walk(loop)):
+            return None
+        import copy
+        self._hn += 1
+        suffix = "__h%d" % self._hn
+        params = [x.arg for x in node.args.args]
+        local = set(params)
+        for n in ast.walk(loop):
+            if isinstance(n, ast.Name) and isinstance(n.ctx, ast.Store):
+                local.add(n.id)
+
+        class Ren(ast.NodeTransformer):
+            def visit_Name(self, n):
+                return ast.Name(id=n.id + suffix, ctx=n.ctx) if n.id in local else n
+        loop2 = Ren().visit(copy.deepcopy(loop))
+        pre = [ast.Assign(targets=[ast.Name(id=p + suffix, ctx=ast.Store())], value=a) for p, a in zip(params, st.iter.args)]
+        yielded = loop2.body[-1].value.value
+        new_loop = ast.For(target=loop2.target, iter=loop2.iter,
+                           body=loop2.body[:-1] + [ast.Assign(targets=[st.target], value=yielded)] + list(st.body), orelse=[])
+        return pre + [new_loop]
+
+    # ------------------------------------------------------------------------------------------ hooks
+    def expr(self, node, scope):
+        if isinstance(node, ast.Subscript) and isinstance(node.slice, ast.Name) and node.slice.id in self._slices \
+                and not self._rule_matches(node):
+            lo, hi = self._slices[node.slice.id]
+            node = ast.Subscript(value=node.value, ctx=node.ctx,
+                                 slice=ast.Slice(lower=ast.Name(id=lo, ctx=ast.Load()), upper=ast.Name(id=hi, ctx=ast.Load()), step=None))
+            return self.expr(node, scope)
+        if isinstance(node, ast.Call) and isinstance(node.func, ast.Name) and not self._rule_matches(node) \
+                and scope.get(node.func.id) not in self._closures:
+            inl = self._inline_expr(node, scope)
+            if inl is not None:
+                return self.expr(inl, scope)
+        return Translator2TN.expr(self, node, scope)
+
+    def _may_raise(self, node, scope):
+        if Translator2TN._may_raise(self, node, scope):
+            return True
+        for sub in ast.walk(node):
+            if isinstance(sub, ast.Call) and isinstance(sub.func, ast.Name) and not self._rule_matches(sub):
+                inl = self._inline_expr(sub, scope)
+                if inl is not None and Translator2TN._may_raise(self, inl, scope):
+                    return True
+        return False
+
+    def _block1(self, stmts, scope, ind, ctx):
+        if stmts:
+            st, rest = stmts[0], stmts[1:]
+            if isinstance(st, ast.For) and isinstance(st.iter, ast.Call) and not self._rule_matches(st.iter):
+                new = self._inline_generator(st, scope)
+                if new is not None:
+                    return self.block(new + rest, scope, ind, ctx)
+            if (isinstance(st, ast.Assign) and len(st.targets) == 1 and isinstance(st.targets[0], ast.Name)
+                    and isinstance(st.value, ast.Call) and isinstance(st.value.func, ast.Name) and st.value.func.id == "slice"
+                    and "slice" not in scope and not st.value.keywords and len(st.value.args) in (2, 3)
+                    and (len(st.value.args) == 2 or (isinstance(st.value.args[2], ast.Constant) and st.value.args[2].value is None))
+                    and not self._rule_matches(st.value)):
+                v = st.targets[0].id
+                lo, hi = v + "__lo", v + "__hi"
+                self._slices[v] = (lo, hi)
+                new = [ast.Assign(targets=[ast.Name(id=lo, ctx=ast.Store())], value=st.value.args[0]),
+                       ast.Assign(targets=[ast.Name(id=hi, ctx=ast.Store())], value=st.value.args[1])]
+                return self.block(new + rest, scope, ind, ctx)
+            if isinstance(st, ast.Assign) and len(st.targets) == 1 and isinstance(st.targets[0], ast.Name):
+                self._slices.pop(st.targets[0].id, None)       # rebound to something else: no longer a known slice
+        return Translator2TN._block1(self, stmts, scope, ind, ctx)
